@@ -204,7 +204,7 @@ Open Scope string_scope.
 Definition x_elem : robj := mkR (NLeaf (1, 1)) [(1, 1)] [] None.
 Definition p_plain : robj := mkR NNone [(1, 1)] [] None.
 Definition ses1 : session :=
-  mkSes 1 1 1 [((1, 1), mkLeaf None 16 (-1) true None None)] [(Some (1, 1), (None, 1))].
+  mkSes 1 1 1 [((1, 1), mkLeaf None 16 (-1) true None None None)] [(Some (1, 1), (None, 1))].
 Definition m_interm : robj := mkR (NInt (Some (1, 1)) (None, 1)) [(1, 1)] [] None.
 
 (* the three witnesses of the defects, now with the repaired outcome: add(a=ok, b=undeclared)
@@ -1057,3 +1057,43 @@ Lemma order_ab_ba :
   corr_of ab (1, 1) (1, 3) = Some 2 /\ corr_of ab (1, 3) (1, 1) = Some 2 /\ corr_of ab (1, 1) (1, 2) = Some 4 /\
   corr_of ba (1, 1) (1, 3) = Some 2 /\ corr_of ba (1, 3) (1, 1) = Some 2 /\ corr_of ba (1, 1) (1, 2) = Some 4.
 Proof. vm_compute. repeat split; reflexivity. Qed.
+
+(* ------------------------------------------------------------------ Part 6: ensembles *)
+(* _thaw ASSIGNS the archived ensemble onto the leaf new_leaf returned.  A live leaf therefore keeps
+   its ensemble exactly when the archived record agrees with it -- which holds for every document
+   written in the session as long as no member was appended after the dump (multiple_ureal ensembles
+   never change; line-fit ensembles grow after x_from_y / y_from_x: reported, not generated) *)
+Lemma thaw_leaves_ens : forall ln s s' r,
+  thaw_leaves s ln = (s', r) -> NoDup (map fst ln) ->
+  (forall u fl l, In (u, fl) ln -> lget (s_leaves s) u = Some l -> l_ens fl = None \/ l_ens fl = l_ens l) ->
+  forall u l, lget (s_leaves s) u = Some l -> exists l', lget (s_leaves s') u = Some l' /\ l_ens l' = l_ens l.
+Proof.
+  induction ln as [|[u0 fl0] t IH]; intros s s' r H ND Hag u l Hl; simpl in H.
+  - injection H as <- _. eauto.
+  - inversion ND as [|? ? Hnot ND']; subst.
+    unfold new_leaf in H. unfold dmem in H. fold (lget (s_leaves s) u0) in H.
+    destruct (lget (s_leaves s) u0) as [l0|] eqn:E0.
+    + destruct (leaf_same _ _ _ _ l0); [|injection H as <- _; eauto].
+      assert (Hens : match l_ens fl0 with Some e => Some e | None => l_ens l0 end = l_ens l0).
+      { destruct (Hag u0 fl0 l0 (or_introl eq_refl) E0) as [-> | ->]; [reflexivity|]. destruct (l_ens l0); reflexivity. }
+      match type of H with thaw_leaves ?s1 _ = _ => set (S1 := s1) in * end.
+      assert (Hag1 : forall u1 fl1 l1, In (u1, fl1) t -> lget (s_leaves S1) u1 = Some l1 -> l_ens fl1 = None \/ l_ens fl1 = l_ens l1).
+      { intros u1 fl1 l1 Hin Hg. unfold S1 in Hg. simpl in Hg. rewrite lget_lset in Hg. destruct (uid_eqb u0 u1) eqn:E.
+        - apply uid_eqb_eq in E. subst u1. exfalso. apply Hnot. apply (in_map fst) in Hin. exact Hin.
+        - eapply Hag; [right; exact Hin | exact Hg]. }
+      assert (Hl1 : exists lx, lget (s_leaves S1) u = Some lx /\ l_ens lx = l_ens l).
+      { unfold S1. simpl. rewrite lget_lset. destruct (uid_eqb u0 u) eqn:E.
+        - apply uid_eqb_eq in E. subst u. rewrite E0 in Hl. injection Hl as <-. eexists. split; [reflexivity|]. simpl. exact Hens.
+        - eauto. }
+      destruct Hl1 as (lx & G & Ex). destruct (IH S1 s' r H ND' Hag1 u lx G) as (l' & G' & E'). exists l'. split; congruence.
+    + match type of H with thaw_leaves ?s1 _ = _ => set (S1 := s1) in * end.
+      assert (Hne : uid_eqb u0 u = false).
+      { destruct (uid_eqb u0 u) eqn:E; [|reflexivity]. apply uid_eqb_eq in E. subst u. congruence. }
+      assert (Hag1 : forall u1 fl1 l1, In (u1, fl1) t -> lget (s_leaves S1) u1 = Some l1 -> l_ens fl1 = None \/ l_ens fl1 = l_ens l1).
+      { intros u1 fl1 l1 Hin Hg. unfold S1 in Hg. simpl in Hg. rewrite !lget_lset in Hg. destruct (uid_eqb u0 u1) eqn:E.
+        - apply uid_eqb_eq in E. subst u1. exfalso. apply Hnot. apply (in_map fst) in Hin. exact Hin.
+        - eapply Hag; [right; exact Hin | exact Hg]. }
+      assert (Hl1 : lget (s_leaves S1) u = Some l).
+      { unfold S1. simpl. rewrite !lget_lset. rewrite Hne. exact Hl. }
+      exact (IH S1 s' r H ND' Hag1 u l Hl1).
+Qed.
